@@ -503,18 +503,3 @@ impl Task {
     }
 //@end
 }
-// ---- src/task/status.rs read accessors (C18) -------------------------------------------------
-impl Status {
-//@extract src/task/status.rs :: impl Status :: fn from_taskmap
-    pub fn from_taskmap(s: &str) -> (r: Status)
-{
-        match s {
-            "pending" => Status::Pending,
-            "completed" => Status::Completed,
-            "deleted" => Status::Deleted,
-            "recurring" => Status::Recurring,
-            v => Status::Unknown(v.to_string()),
-        }
-    }
-//@end
-}
